@@ -1,9 +1,11 @@
 use crate::common::Ctx;
 use serde_json::Value;
 
+pub mod c03;
 pub mod c04;
 pub mod c05;
 pub mod c07;
+pub mod c08;
 pub mod c09;
 pub mod c10;
 pub mod c11;
@@ -22,9 +24,11 @@ type ReplayFn = fn(&Ctx, &Value) -> Result<(bool, String), String>;
 
 fn table(prop: &str) -> Option<(RunFn, ReplayFn)> {
     Some(match prop {
+        "C03" => (c03::run, c03::replay),
         "C04" => (c04::run, c04::replay),
         "C05" => (c05::run, c05::replay),
         "C07" => (c07::run, c07::replay),
+        "C08" => (c08::run, c08::replay),
         "C09" => (c09::run, c09::replay),
         "C10" => (c10::run, c10::replay),
         "C11" => (c11::run, c11::replay),
